@@ -40,7 +40,7 @@ def derived_objects(ctx, ops):
     allops = ops + S.FIT_OPS
     inapplicable = 0
     for acts, dims in progs:
-        if ctx.quick and len(acts) == 2 and hash((acts, ctx.seed)) % 16:
+        if ctx.quick and len(acts) == 2 and hash((acts, ctx.seed)) % 24:
             continue
         try:
             x = base
